@@ -767,6 +767,11 @@ func (p *Program) bindAll() {
 			p.bindClause(c, cl, pos, true)
 		}
 		loops := loopStmts(c.Decl)
+		if len(loops) == 0 && len(c.Loops) > 0 {
+			// the function no longer has any loop: clauses about loops constrain nothing, and the remaining obligations
+			// (pre/postconditions of straight-line code) need no invariant — they are decided as they stand
+			c.Loops = map[int]*LoopSpec{}
+		}
 		for n, ls := range c.Loops {
 			if n < 1 || n > len(loops) {
 				c.BindErr = append(c.BindErr, fmt.Sprintf("loop %d not found (function has %d loops)", n, len(loops)))
